@@ -43,6 +43,16 @@ CLAIMED["C14"] = dict(
   note="Trusted: polyclip-go's CLIPLINE semantics (the geometry of this property lives entirely in the dependency), A-REGION, A-ENGINE, A-SMT, A-INT. Thin by nature: lengths/containment of the clipped pieces are not decided by contracts.",
   design="DESIGN.md §3 C14")
 
+CLAIMED["C11"] = dict(
+  text="Deductive proof (govc) of the parts of the R-tree that contracts over one call can reach: the box predicates of geom.go (intersect is true iff the boxes share a point for valid boxes; containsPoint/containsRect/enlarge/boundingBox/size/margin against point-set and min/max specs, real arithmetic); computeBoundingBox returns a fresh box that is exactly the fold (join) of the node's entry boxes; NewTree builds an empty balanced tree; Size/Depth return the bookkeeping fields; the epilogues of insert (root split) and Delete (root collapse) keep Depth() == level of the root, leaf <=> level 1 and the child-level relation of the root for every tree satisfying them on entry; Insert adds exactly one to Size, Delete subtracts one exactly when it returns true and otherwise leaves root/height/size alone; searchIntersect/SearchIntersect return, for every tree satisfying the shape invariant wfN (levels decrease by one, boxes non-nil, children non-nil), a fresh slice whose length is the number of leaf entries in the subtree whose box hits the query (recursive count spec, with multiplicity), never dereference nil or index out of range, terminate (measure: node level) and modify nothing.",
+  note="PARTIAL. Assumed, not proved (listed as trusted contracts in the evidence): preservation of the tree-shape invariant by the restructuring code chooseNode/split/adjustTree/condenseTree/findLeaf (they only rewrite entries/parent/bb fields; proving the shape through them needs separation/ownership reasoning that govc does not have) — so the history quantifier rests on trusted contracts for these five functions plus the proved epilogues; exact-envelope of every internal entry, the fan-out bound and 'search result = stored objects as a multiset' (only the count and safety are proved) are not decided. Real arithmetic (A-REAL), A-ENGINE, A-SMT, A-INT; termination of recursive spec functions is by their stated measures (not machine-checked). A genuine defect found by the Delete epilogue obligation (height not decremented on root collapse) is repaired (fix: commit) and kept as a regression witness.",
+  design="DESIGN.md §3 C11")
+
+CLAIMED["C12"] = dict(
+  text="Deductive proof (govc, real arithmetic) of the nearest-neighbour bookkeeping: dist is the Euclidean distance; minDist is the squared distance to the clamped point, attained inside a valid box and a lower bound for every point of the box; insertNearest inserts a candidate at its rank (first position whose distance is strictly greater), shifts the rest, drops the k-th, returns the inputs unchanged when the candidate does not rank, keeps sortedness and lengths (all by loop invariant against the recursive rank spec insPos); pruneEntries returns a fresh sub-multiset of its input; nearestNeighbor/nearestNeighbors never dereference nil or index out of range on trees satisfying the shape invariant wfN, terminate (measure: node level), never worsen any of the k best distances, keep the distance slots sorted and of length k, and modify nothing pre-existing; in nearestNeighbors a branch is skipped only when its MINDIST is strictly greater than the current k-th best distance and every later branch is at least as far (sufficient condition for k-NN correctness, since MINDIST is a proved lower bound); any use of MINMAXDIST pruning in nearestNeighbors is admissible only for k <= 1 (guard obligation on that statement).",
+  note="PARTIAL. Not decided: that the returned objects are the true k nearest (needs the subtree-multiset view, exact envelopes and the MINMAXDIST face theorem of Roussopoulos et al. for the k=1 pruning; only the sufficient conditions above are proved); minMaxDist only non-negativity. Trusted: sortEntries (sort.Sort: permutation + sortedness assumed), shape invariant on entry (its preservation by the mutators is assumed, see C11), A-REAL, A-ENGINE, A-SMT, A-INT. A genuine defect (MINMAXDIST pruning applied for k > 1) was found through the guard obligation, confirmed by a concrete 6-point witness and repaired (fix: commit).",
+  design="DESIGN.md §3 C12")
+
 NA = {}
 
 def main():
